@@ -3,7 +3,7 @@ from tools.krun import Harness
 from tools.extract import Unit, Rw
 
 PROPERTY = "C16"
-PRELUDE = ["../common/base.rs", "lemmas.rs", "config_stubs.rs"]
+PRELUDE = ["../common/base.rs", "lemmas.rs", "config_stubs.rs", "repair_stubs.rs"]
 CO = "crates/core/src/commands/config.rs"
 R_DISCARD = Rw(r"(?m)^(\s*)_ = ", r"\1let _ = ", regex=True, count=None, why="`_ = e;` -> `let _ = e;`")
 UNITS = [
@@ -21,6 +21,42 @@ UNITS = [
                    Rw("repo: &Repository<S>", "repo: &VRepoHC", sig=True, why="Repository<S> -> two-store stub"),
                    Rw("key: impl CryptoKey", "key: K", sig=True, why="impl Trait argument -> named generic")],
          contract="\n    requires repo.wf(),\n    // obligation (implicit): the cold store's config carries no hot marker; then save_config_hot\n"),
+]
+
+RH = "crates/core/src/commands/repair/hotcold.rs"
+UNITS += [
+    Unit(name="indexpack_blob_type", file="crates/core/src/repofile/indexfile.rs", anchor="pub fn blob_type(&self) -> BlobType", ret_name="r",
+         wrap_open="impl IndexPack {", wrap_close="}",
+         functions=["repofile::indexfile::IndexPack::blob_type"],
+         contract="\n    ensures r == pack_type_spec(*self),\n"),
+    Unit(name="get_tree_packs", file=RH, anchor="pub(crate) fn get_tree_packs<S: Open>(", ret_name="r",
+         functions=["commands::repair::hotcold::get_tree_packs"],
+         rewrites=[R_DISCARD,
+             Rw("fn get_tree_packs<S: Open>(repo: &Repository<S>) -> RusticResult<BTreeSet<PackId>>", "fn get_tree_packs(repo: &VRepoIdx) -> RusticResult<VSetP>", sig=True, why="Repository<S> -> index-file stream stub; BTreeSet -> set stub"),
+             Rw("BTreeSet::new()", "VSetP::new()", why="BTreeSet -> set stub"),
+             Rw("for index in repo.dbe().stream_all::<IndexFile>(&p)? {", "let vstream = repo.vstream_all_index(&p)?; for index in it: vstream.into_iter() {", why="channel stream -> vector of per-file results; Verus for-loop syntax"),
+             Rw(r"for \((?P<a>\w+), (?P<b>\w+)\) in index\.all_packs\(\) \{", r"let vap = index.all_packs(); for e in it2: vap.iter() { let \g<a> = &e.0; let \g<b> = e.1;", regex=True, why="iterator chain -> vector; Verus for-loop syntax"),
+         ],
+         contract="""
+    ensures
+        // the set returned is exactly the packs -- live or marked for deletion -- that some index file lists as tree packs
+        /*@tree_packs_exactly_the_listed_tree_packs*/ r matches Ok(s) ==> forall|id: PackId| s@.contains(id) <==> is_tree_pack_of(repo.index_files(), repo.index_files().len() as int, id),
+""",
+         loops={1: """
+        invariant
+            vstream@.len() == repo.index_files().len(),
+            forall|i: int| 0 <= i < vstream@.len() ==> ((#[trigger] vstream@[i]) matches Ok(x) ==> x.1 == repo.index_files()[i]),
+            forall|id: PackId| tree_packs@.contains(id) <==> is_tree_pack_of(repo.index_files(), it.index@, id),
+""", 2: """
+            invariant
+                0 <= fi < repo.index_files().len(), vap@.len() == all_packs_spec(repo.index_files()[fi]).len(),
+                forall|i: int| 0 <= i < vap@.len() ==> (#[trigger] vap@[i]).0 == all_packs_spec(repo.index_files()[fi])[i],
+                forall|id: PackId| tree_packs@.contains(id) <==> is_tree_pack_of(repo.index_files(), fi, id)
+                    || exists|j: int| 0 <= j < it2.index@ && (#[trigger] all_packs_spec(repo.index_files()[fi])[j]).id == id && pack_type_spec(all_packs_spec(repo.index_files()[fi])[j]) == BlobType::Tree,
+"""},
+         hints=[("loop_start", "1", "        let ghost fi = it.index@;"),
+                ("loop_start", "2", "            proof { assert(vap@[it2.index@] == *e); }")],
+         ),
 ]
 M = "backend::hotcold::verif_kani::"
 HC = "backend::hotcold::HotColdBackend::"
@@ -42,9 +78,8 @@ KANI_ASSUMPTIONS = [
 ]
 META = {
     "not_covered": [
-        "repair hot/cold command (commands/repair/hotcold.rs)",
+        "repair hot/cold command beyond get_tree_packs: get_missing_files / correct_missing_files / copy (closures, iterator adapters, rayon)",
         "warm-up call-site ordering inside restore / prune / check / repair index",
-        "save_config / save_config_hot",
         "equivalence with a single-store repository beyond single backend calls",
     ],
 }
